@@ -637,3 +637,133 @@ class C19(Check):
 
 
 CHECKS['C19'] = C19()
+
+
+# ---------------------------------------------------------------- C06
+
+def phase2_check(sc2: dict, storage_dir: str, metas1: dict, seed: str) -> dict:
+    """Second run over a populated storage (same or fresh interpreter)."""
+    from .execute import observe_cache
+    ref = Ref(sc2)
+    vs = []
+    cached_now = observe_cache(sc2, storage_dir)
+    for n in sc2.get('cached', []):
+        if cached_now.get(n) is not True:
+            vs.append(O.V('C06', 'not-cached', f'node {n} ({ref.tname(n)}) executed successfully under a caching Lab but is_cached says {cached_now.get(n)}',
+                          backend2=sc2['backend']))
+    ch2 = Choices(seed=seed)
+    out2 = execute(sc2, ch2, storage_dir)
+    facts2 = O.Facts(sc2, out2)
+    for v in O.check_C01(sc2, out2, facts2) + O.check_C03(sc2, out2, facts2):
+        if v['code'] in ('value', 'keys', 'no-return', 'execute-set', 'load-set', 'executed-twice', 'executed-and-loaded'):
+            vs.append(O.V('C06', 'second-run-' + v['code'], v['detail'], backend2=sc2['backend'], **{k: x for k, x in v['sig'].items() if k not in ('backend2',)}))
+    # result_meta of loaded nodes equals the originally recorded start and duration
+    for n in facts2.loaded:
+        want = metas1.get(str(n)) or metas1.get(n)
+        for serial, m in out2.metas.get(n, []):
+            if m is not None and want is not None and list(m) != list(want):
+                vs.append(O.V('C06', 'meta-differs', f'node {n}: result_meta after the cache hit is {m}, originally recorded {want}',
+                              backend2=sc2['backend']))
+                break
+    return {'violations': vs, 'event_digest': out2.digest(), 'begins': facts2.executed, 'loaded': facts2.loaded,
+            'outcome': out2.kind}
+
+
+def phase2_main() -> int:
+    """Entry point of the fresh interpreter (other PYTHONHASHSEED)."""
+    import json
+    import sys
+    job = json.loads(sys.stdin.read())
+    real_stdout = os.fdopen(os.dup(1), 'w')
+    sys.stdout = open(os.devnull, 'w')
+    res = phase2_check(job['sc2'], job['dir'], job['metas1'], job['seed'])
+    real_stdout.write('PHASE2 ' + json.dumps(res, default=repr) + '\n')
+    real_stdout.flush()
+    return 0
+
+
+class C06(Check):
+    id = 'C06'
+    quick_runs = 1200
+    expected_probes = ('fresh-interpreter', 'cross-backend', 'real-clock-first-run')
+    rule = ('distinct (specification digest, first-run schedule digest, second-run backend) histories of first run / second run '
+            '(/ third run in a fresh interpreter with another hash seed); non-trivial = at least one cacheable task was loaded in the second run')
+
+    def gen(self, ch, tier):
+        sc = gen_scenario(ch, backends=ALL_BACKENDS, cache='never',
+                          types=[('TA', 4), ('TB', 2), ('TC', 2), ('TD', 3), ('TN', 2), ('TP', 2)])
+        sc['gen_main'] = 1
+        cfg = ch.stream('config')
+        if sc['backend'] in ('serial', 'sim') and cfg.chance(1, 4):
+            sc['real_clock'] = True
+        return sc
+
+    def run(self, ch, workdir, tier):
+        import json
+        import subprocess
+        import sys
+        from . import REPO_DIR, VERIF_DIR
+        sc1 = self.gen(ch, tier)
+        cfg = ch.stream('config')
+        backend2 = ALL_BACKENDS[cfg.weighted([w for _, w in ALL_BACKENDS])][0]
+        fresh = cfg.chance(1, 6)
+        d = tempfile.mkdtemp(dir=workdir)
+        probes = {}
+        try:
+            out1 = execute(sc1, ch, d)
+            facts1 = O.Facts(sc1, out1)
+            vs = []
+            for v in O.check_C01(sc1, out1, facts1):
+                vs.append(O.V('C06', 'first-run-' + v['code'], v['detail']))
+            ref = facts1.ref
+            executed_ok = [n for n in facts1.executed if n in facts1.ends and ref.cacheable(n)]
+            metas1 = {}
+            for n in executed_ok:
+                ms = [m for _s, m in out1.metas.get(n, []) if m is not None]
+                if ms:
+                    metas1[str(n)] = list(ms[0])
+            sc2 = {k: v for k, v in sc1.items() if k not in ('real_clock',)}
+            sc2['backend'] = backend2
+            sc2['cached'] = executed_ok
+            sc2['skip_warm'] = True
+            sc2['gen_pre'] = 1          # the context of the first run
+            sc2['gen_main'] = 2         # a re-execution would be visible in the value
+            if not vs and out1.kind == 'return':
+                res = phase2_check(sc2, d, metas1, f'p2:{out1.digest()}')
+                vs += res['violations']
+                if res['loaded']:
+                    probes['second-run-loaded'] = len(res['loaded'])
+                if backend2 != sc1['backend']:
+                    probes['cross-backend'] = 1
+                if sc1.get('real_clock'):
+                    probes['real-clock-first-run'] = 1
+                if fresh and not vs:
+                    # third history step in a fresh interpreter under another hash seed
+                    env = dict(os.environ)
+                    my = int(os.environ.get('PYTHONHASHSEED', '0') or 0)
+                    env['PYTHONHASHSEED'] = str((my * 7 + 11) % 4096 + 1)
+                    env['VERIF_REPO'] = REPO_DIR
+                    env['PYTHONDONTWRITEBYTECODE'] = '1'
+                    job = {'sc2': sc2, 'dir': d, 'metas1': metas1, 'seed': f'p3:{out1.digest()}'}
+                    p = subprocess.run([sys.executable, os.path.join(VERIF_DIR, 'check'), '_phase2'], input=json.dumps(job),
+                                       capture_output=True, text=True, env=env, timeout=120)
+                    line = [x for x in p.stdout.splitlines() if x.startswith('PHASE2 ')]
+                    if not line:
+                        raise RuntimeError(f'fresh-interpreter phase failed: {p.stderr[-1500:]}')
+                    res3 = json.loads(line[0][7:])
+                    probes['fresh-interpreter'] = 1
+                    for v in res3['violations']:
+                        v['sig']['fresh_interpreter'] = True
+                        v['detail'] += f' [fresh interpreter, PYTHONHASHSEED={env["PYTHONHASHSEED"]}]'
+                        vs.append(v)
+        finally:
+            shutil.rmtree(d, ignore_errors=True)
+        r = self.record(sc1, out1, vs, ch)
+        r['probes'].update(probes)
+        r['nontrivial'] = bool(probes.get('second-run-loaded'))
+        r['spec_digest'] = r['spec_digest'] + ':' + backend2
+        r['sample']['second_run_backend'] = backend2
+        return r
+
+
+CHECKS['C06'] = C06()
